@@ -253,6 +253,15 @@ def removal_predicate_rules(ctx, rule='R4'):
     sites = removal_sites(rm)
     ctx.need(sites is not None, 'remove_header_callback: removal idiom not recognised')
     in_place_rule(ctx, rule)
+    # every registration is looked at: the removal loop runs over the whole table (an index range that stops short of entry 0, or
+    # starts after it, leaves that registration in place for ever)
+    lps = [l for l in walk_own(rm.node) if isinstance(l, ast.For)]
+    whole = ('self.cb', 'list(self.cb)', 'self.cb[:]', 'tuple(self.cb)', 'self.cb.copy()', 'reversed(self.cb)', 'reversed(list(self.cb))', 'range(len(self.cb) - 1, -1, -1)',
+             'reversed(range(len(self.cb)))', 'range(len(self.cb))', 'enumerate(self.cb)', 'enumerate(list(self.cb))')
+    if lps and any(k.startswith(('remove@', 'index@', 'swap@')) for k, _ in sites):
+        its = [norm(l.iter) for l in lps]
+        ctx.inst(rule, rm, 'every-entry-examined', any(i in whole for i in its) or any(isinstance(l.iter, ast.Name) for l in lps),
+                 'the removal loop iterates %s - not the whole registration table' % its)
     for key, keys in sites:
         for field, par in want.items():
             ok = keys.get(field) == par and par in params
@@ -354,6 +363,22 @@ def removal_sites(func):
                 out.append(('rebuild@%d' % len(out), g_eq_fields(facts, norm(gen.target), func)))
             else:
                 out.append(('rebuild@%d' % len(out), {}))                            # several filters: dropped if any fails - no conjunction holds
+    # by index:  for i in range(..): e = self.cb[i]; if <match e>: del self.cb[i]  (or self.cb.pop(i))
+    for node in g.nodes:
+        ix = None
+        if node.kind == 'stmt' and isinstance(node.ast, ast.Delete) and len(node.ast.targets) == 1 and isinstance(node.ast.targets[0], ast.Subscript) and \
+                norm(node.ast.targets[0].value) == 'self.cb' and isinstance(node.ast.targets[0].slice, ast.Name):
+            ix = node.ast.targets[0].slice.id
+        elif node.kind == 'stmt' and isinstance(node.ast, ast.Expr) and method_call(node.ast.value, 'pop') and norm(node.ast.value.func.value) == 'self.cb' and \
+                len(node.ast.value.args) == 1 and isinstance(node.ast.value.args[0], ast.Name):
+            ix = node.ast.value.args[0].id
+        if ix is None:
+            continue
+        entry = 'self.cb[%s]' % ix
+        for st in walk_own(func.node):
+            if isinstance(st, ast.Assign) and len(st.targets) == 1 and isinstance(st.targets[0], ast.Name) and norm(st.value) == entry:
+                entry = st.targets[0].id
+        out.append(('index@%d' % len(out), g_eq_fields(g.facts_at(node), entry, func)))
     # snapshot / prune / swap:  tmp = list(self.cb); ... tmp.remove(x) ...; self.cb = tmp   - the same predicate, but not in place
     for st in walk_own(func.node):
         if isinstance(st, ast.Assign) and norm(st.targets[0]) == 'self.cb' and isinstance(st.value, ast.Name):
